@@ -383,35 +383,10 @@ end Ser
 section Exec
 variable {N V : Type} [DecidableEq N]
 
-theorem loggerExec_ok (iterName : N) (rules : List (Rule N V)) (it : Option V) (log log' : Log N V)
-    (h : loggerExec iterName rules it log = .ok log') :
-    noFail rules ∧ log' = log ++ (specStepO iterName rules it).toList := by
-  unfold loggerExec at h
-  cases he : execRules rules [] with
-  | error e => simp [he] at h
-  | ok step =>
-    have hnf := execRules_ok_noFail rules [] step he
-    rw [execRules_nil_eq rules hnf] at h
-    refine ⟨hnf, ?_⟩
-    simp only at h
-    unfold specStepO
-    by_cases hem : (dedup (fired rules)).isEmpty = true
-    · simp only [hem, if_true] at h ⊢
-      cases h; simp
-    · simp only [hem, if_false, Bool.false_eq_true] at h ⊢
-      unfold pushIteration at h
-      by_cases hc : contains (dedup (fired rules)) iterName = true
-      · simp only [hc, if_true] at h ⊢
-        cases h; rfl
-      · simp only [hc, if_false, Bool.false_eq_true] at h ⊢
-        cases it with
-        | none => simp at h
-        | some v => simp only at h; cases h; rfl
-
-theorem loggerExec_of_noFail (iterName : N) (rules : List (Rule N V)) (v : V) (log : Log N V)
+theorem loggerExec_of_noFail (iterName : N) (rules : List (Rule N V)) (it : Option V) (log : Log N V)
     (h : noFail rules) :
-    loggerExec iterName rules (some v) log = .ok (log ++ (specStep iterName rules v).toList) := by
-  unfold loggerExec specStep specStepO
+    loggerExec iterName rules it log = .ok (log ++ (specStepO iterName rules it).toList) := by
+  unfold loggerExec specStepO
   rw [execRules_nil_eq rules h]
   by_cases hem : (dedup (fired rules)).isEmpty = true
   · simp [hem]
@@ -419,7 +394,19 @@ theorem loggerExec_of_noFail (iterName : N) (rules : List (Rule N V)) (v : V) (l
     unfold pushIteration
     by_cases hc : contains (dedup (fired rules)) iterName = true
     · simp [hc]
-    · simp [hc]
+    · cases it <;> simp [hc]
+
+theorem loggerExec_ok (iterName : N) (rules : List (Rule N V)) (it : Option V) (log log' : Log N V)
+    (h : loggerExec iterName rules it log = .ok log') :
+    noFail rules ∧ log' = log ++ (specStepO iterName rules it).toList := by
+  have hnf : noFail rules := by
+    unfold loggerExec at h
+    cases he : execRules rules [] with
+    | error e => simp [he] at h
+    | ok step => exact execRules_ok_noFail rules [] step he
+  rw [loggerExec_of_noFail iterName rules it log hnf] at h
+  cases h
+  exact ⟨hnf, rfl⟩
 
 theorem runExecs_append (iterName : N) (a b : List (List (Rule N V) × Option V)) (log : Log N V) :
     runExecs iterName (a ++ b) log =
@@ -499,9 +486,7 @@ theorem doLog_trace (s s' : St) (h : doLog s = .ok s') :
         simp only [he] at h
         split at h
         · cases h; rfl
-        · split at h
-          · cases h
-          · cases h; rfl
+        · cases h; rfl
     · simp only [runExecs, loggerExec]
       cases he : execRules (resolve s.env rs) [] with
       | error e => simp [he] at h
@@ -509,11 +494,7 @@ theorem doLog_trace (s s' : St) (h : doLog s = .ok s') :
         simp only [he] at h ⊢
         split at h
         · rename_i hem; cases h; simp [hem]
-        · rename_i hem
-          simp only [hem, if_false, Bool.false_eq_true]
-          split at h
-          · cases h
-          · rename_i st hst; cases h; simp [hst]
+        · rename_i hem; cases h; simp [hem]
 
 def TraceOk (s s' : St) : Prop :=
   ∃ tr, s'.trace = s.trace ++ tr ∧ runExecs iterName tr s.log = .ok s'.log
